@@ -143,6 +143,9 @@ func (rn *runner) history(length int) {
 				ip = ips[e.Rng.Intn(len(ips))]
 			}
 			op = gi.Op{Kind: "admres", IP: ip, Key: "pool__reserved-for-node_", Policy: e.Rng.Intn(3), Plan: gi.NoPlan()}
+			if v.HasPending(ip) {
+				op = gi.Op{Kind: "deliver", Plan: gi.NoPlan()}
+			}
 		case x < 30:
 			op = gi.Op{Kind: "admunres", Plan: gi.NoPlan()}
 			for _, ip := range gi.SortedIPs(v.Store) {
